@@ -92,6 +92,13 @@ const EDITS: &[Edit] = &[
     ed("foreign-only-input", Reject, Needs::Fresh),
     ed("nonexistent-input", Reject, Needs::Fresh),
     ed("already-spent-input", Reject, Needs::Fresh),
+    // a golden-ticket-typed transaction (a real ticket mined for the tip) is a user transaction like
+    // any other: a value input of its signer that is already spent / never existed makes it invalid
+    ed("golden-ticket-with-spent-own-input", Reject, Needs::Fresh),
+    ed("golden-ticket-with-nonexistent-own-input", Reject, Needs::Fresh),
+    // two different spends of one output: one pooled first, the other arriving in an accepted block;
+    // afterwards the pool must not hold the loser
+    Edit { name: "rival-spend-pooled-then-block", expect: Accept, known: None, needs: Needs::Fresh, venues: Venues::BlockOnly, stake_slot: false },
     // the ledger look-up covers every slip type: a BlockStake-typed input of the signer's own key
     // that never existed / was already re-staked, named by a transaction that is not a staking one
     ed("nonexistent-stake-typed-input", Reject, Needs::Fresh),
@@ -801,6 +808,32 @@ async fn make_edit(w: &mut World, built: &Built, e: usize, ts: u64, rng: &mut Rn
             let sk = sk_of(w, &sl.public_key)?;
             one(raw_tx(n, vec![sl.clone()], vec![slip_out(sl.public_key, sl.amount)], &sk, ts))
         }
+        "golden-ticket-with-spent-own-input" | "golden-ticket-with-nonexistent-own-input" => {
+            let mut t = golden_ticket_tx(w.tip.hash, w.tip.difficulty, &apk, &ask, 7_000 + e as u64).await;
+            let mut input = if EDITS[e].name == "golden-ticket-with-spent-own-input" {
+                w.spent_slip.clone()
+            } else {
+                let mut x = own.clone();
+                x.amount += 777;
+                x
+            };
+            input.generate_utxoset_key();
+            t.from = vec![input.clone()];
+            t.to = vec![slip_out(apk, input.amount)];
+            t.timestamp = ts;
+            t.sign(&ask);
+            one(t)
+        }
+        "rival-spend-pooled-then-block" => {
+            let rival = raw_tx(n, vec![own.clone()], vec![slip_out(vpk, own.amount)], &ask, ts + 5);
+            let sig = rival.signature;
+            let r = futures_catch(AssertUnwindSafe(w.node.mempool.add_transaction_if_validates(rival, &w.node.blockchain))).await;
+            if r.is_err() || !w.node.mempool.transactions.contains_key(&sig) {
+                w.scenario_failure = Some("a valid transaction was not pooled".to_string());
+                return None;
+            }
+            one(raw_tx(n, vec![own.clone()], vec![slip_out(apk, own.amount)], &ask, ts))
+        }
         "already-spent-input" => one(raw_tx(n, vec![w.spent_slip.clone()], vec![slip_out(apk, w.spent_slip.amount)], &ask, ts)),
         "duplicate-input-in-tx" => one(raw_tx(n, vec![own.clone(), own.clone()], vec![slip_out(apk, own.amount * 2)], &ask, ts)),
         "same-input-in-two-txs" => Some(vec![
@@ -1314,6 +1347,30 @@ async fn make_edit(w: &mut World, built: &Built, e: usize, ts: u64, rng: &mut Rn
 /// the attacker (plus the producer's staking transaction where required), whose
 /// carrier (or staking transaction) is then swapped for the adversarial one(s)
 async fn attacker_block(w: &World, adversarial: &[Transaction], stake_slot: bool, direct: bool, ts: u64, seed: u64) -> Option<Block> {
+    if adversarial.len() == 1 && adversarial[0].transaction_type == TransactionType::GoldenTicket && adversarial[0].data.len() == 97 && adversarial[0].from.len() == 1 && adversarial[0].from[0].amount > 0 && adversarial[0].to.len() == 1 {
+        // a ticket transaction with value slips: the block is produced with it as ITS golden ticket
+        // (a second ticket would be refused for that reason alone)
+        let own2 = if w.plan.wrapped() { w.chain_head.clone() } else { w.attacker_slips[0].clone() };
+        let carrier = raw_tx(TransactionType::Normal, vec![own2.clone()], vec![slip_out(w.attacker.0, own2.amount)], &w.attacker.1, ts);
+        let mut map = fixed_tx_map();
+        let mut txs = vec![carrier];
+        if w.plan.stake > 0 {
+            txs.push(stake_tx_of_node(&w.node).await?);
+        }
+        for mut t in txs {
+            t.generate(&w.node.pk, 0, 0);
+            map.insert(t.signature, t);
+        }
+        let mut gt = adversarial[0].clone();
+        gt.generate(&w.node.pk, 0, 0);
+        let mut b = Block::create(&mut map, w.tip.hash, &w.node.blockchain, ts, &w.node.pk, &w.node.sk, Some(gt), &w.node.cfg, &w.node.storage)
+            .await
+            .ok()?;
+        b.generate().ok()?;
+        b.sign(&w.node.sk);
+        b.generate().ok()?;
+        return Some(b);
+    }
     if direct {
         // a fee-paying adversarial transaction: the block is produced around it (header values follow
         // from its fee), then the fields the producer normalised are put back as the attacker sent them
